@@ -815,6 +815,11 @@ def bytes_iter_mut(c):
     """`slice.iter_mut()` over bytes: an iterator that remembers which window of which buffer it walks"""
     src = c.deref(c.args[0])
     if isinstance(src, Seq) and src.view is not None:
+        if str(src.view[0]).startswith("@"):
+            # a window of a content-tracked container: bytes may be written through the items handed out (a `for` loop over
+            # the iterator leaves no other trace), so the window's bytes are unknown from here on; `for_each` refines this
+            from absint.models_content import patch_container
+            patch_container(c.it, c.st, src.view, Lin.const(0), src.len, ("be", 0, None))
         return [(c.st, Iter(src.len, False, "bytesmut", None, Seq(src.len, None, None, src.view, None)))]
     return c.it.models.lookup_after(c.name, bytes_iter_mut)(c)
 
